@@ -501,64 +501,150 @@ def _truthiness(e: ast.AST) -> bool | None:
     return None
 
 
-class _DefProblem(Problem):
-    """State: (frozenset of definitely assigned names, frozenset of implications (flag, name | '*'))."""
+_TRUTH = "<truth>"
+_OTHER = ("o",)
+_CANON = {ast.Eq: ("==", True), ast.NotEq: ("==", False), ast.Is: ("==", True), ast.IsNot: ("==", False),
+          ast.Lt: ("<", True), ast.GtE: ("<", False), ast.Gt: (">", True), ast.LtE: (">", False)}
+_FLIP = {ast.Lt: ast.Gt, ast.Gt: ast.Lt, ast.LtE: ast.GtE, ast.GtE: ast.LtE}
+_PYOP = {"==": lambda a, b: a == b, "<": lambda a, b: a < b, ">": lambda a, b: a > b}
 
-    def __init__(self, cfg: CFG, params: list[str], flags: set[str], companions: dict[int, set[str]] | None = None) -> None:
+
+def _flag_test(test: ast.AST, truth: bool):
+    """(flag name, key, constant operand, polarity) for a test that depends on one local name and constants only:
+    `x`, `not x`, `x <op> const`, `const <op> x`.  key is the canonical predicate text, polarity says whether the predicate
+    holds on the edge taken."""
+    while isinstance(test, ast.UnaryOp) and isinstance(test.op, ast.Not):
+        test, truth = test.operand, not truth
+    if isinstance(test, ast.Name):
+        return test.id, _TRUTH, None, truth
+    if isinstance(test, ast.Compare) and len(test.ops) == 1:
+        l, op, r = test.left, test.ops[0], test.comparators[0]
+        if isinstance(l, ast.Constant) and isinstance(r, ast.Name):
+            l, r = r, l
+            op = _FLIP.get(type(op), type(op))()
+        if isinstance(l, ast.Name) and isinstance(r, ast.Constant) and type(op) in _CANON:
+            sym, pol = _CANON[type(op)]
+            return l.id, f"{sym} {r.value!r}", (sym, r.value), truth if pol else not truth
+        if isinstance(l, ast.Name) and isinstance(r, ast.UnaryOp) and isinstance(r.op, ast.USub) and isinstance(r.operand, ast.Constant) \
+                and isinstance(r.operand.value, (int, float)) and type(op) in _CANON:
+            sym, pol = _CANON[type(op)]
+            return l.id, f"{sym} {-r.operand.value!r}", (sym, -r.operand.value), truth if pol else not truth
+    return None
+
+
+def _class_of(value: ast.AST | None):
+    """Origin class of an assigned value: a constant, a value of known truthiness, or `other`."""
+    if value is None:
+        return _OTHER
+    if isinstance(value, ast.Constant):
+        return ("c", repr(value.value), value.value)
+    if isinstance(value, ast.UnaryOp) and isinstance(value.op, ast.USub) and isinstance(value.operand, ast.Constant) \
+            and isinstance(value.operand.value, (int, float)):
+        return ("c", repr(-value.operand.value), -value.operand.value)
+    t = _truthiness(value)
+    if t is not None:
+        return ("p", _TRUTH, t)
+    return _OTHER
+
+
+def _eval_class(k, key: str, operand) -> bool | None:
+    """Does the predicate `key` hold of a value of origin class k?  None = unknown."""
+    if k[0] == "c":
+        v = k[2]
+        try:
+            if key == _TRUTH:
+                return bool(v)
+            sym, cv = operand
+            if sym == "==":
+                return (v is None) == (cv is None) and v == cv if (v is None or cv is None) else (type(v) is type(cv) or
+                        isinstance(v, (int, float)) and isinstance(cv, (int, float))) and v == cv
+            return bool(_PYOP[sym](v, cv))
+        except TypeError:
+            return None
+    if k[0] == "p":
+        if k[1] == key:
+            return k[2]
+        # truthy values are not None; a value equal to None is falsy
+        if k[1] == _TRUTH and k[2] is True and key == "== None":
+            return False
+        if k[1] == "== None" and k[2] is True and key == _TRUTH:
+            return False
+    return None
+
+
+class _DefProblem(Problem):
+    """Definite assignment with origin classes.
+
+    State: (D, I, K).  D = names definitely assigned.  K = set of (flag, class): the classes the flag's current value may
+    have originated from (a constant, an unknown value refined by a test on it, or `other`).  I = set of (flag, class, name):
+    whenever the flag's current value is of that class, `name` is assigned.  A test on the flag removes the classes the test
+    excludes (an edge with no class left is infeasible) and adds the names implied by every remaining class.  At a join an
+    implication survives if each side has it, has the name assigned outright, or cannot have the flag in that class."""
+
+    def __init__(self, cfg: CFG, params: list[str], flags: set[str]) -> None:
         self.cfg, self.params, self.flags = cfg, params, flags
-        self.companions = companions or {}      # id(flag-setting stmt) -> names assigned later in the same block
 
     def entry_state(self):
-        return (frozenset(self.params), frozenset())
+        return (frozenset(self.params), frozenset(), frozenset())
 
     def join(self, a, b, at):
-        da, ia = a
-        db, ib = b
+        da, ia, ka = a
+        db, ib, kb = b
         d = da & db
-        # an implication survives if both sides have it, or the other side defines the name outright / has the universal one
+        k = ka | kb
+        names = ((da | db) - d) | {nm for (_, _, nm) in ia} | {nm for (_, _, nm) in ib}
+        names -= d
         imp = set()
-        for (fl, nm) in ia | ib:
-            def has(side_d, side_i):
-                return (fl, nm) in side_i or (fl, "*") in side_i or (nm != "*" and nm in side_d)
-            if has(da, ia) and has(db, ib):
-                imp.add((fl, nm))
-        return (d, frozenset(imp))
+        for (fl, cl) in k:
+            in_a, in_b = (fl, cl) in ka, (fl, cl) in kb
+            for nm in names:
+                if (not in_a or nm in da or (fl, cl, nm) in ia) and (not in_b or nm in db or (fl, cl, nm) in ib):
+                    imp.add((fl, cl, nm))
+        return (d, frozenset(imp), k)
+
+    def equal(self, a, b):
+        return a == b
 
     def _assign(self, st, name: str, value: ast.AST | None, stmt: ast.AST | None = None):
-        d, imp = st
+        d, imp, k = st
         d = d | {name}
+        if any(nm == name for (_, _, nm) in imp):
+            imp = frozenset(x for x in imp if x[2] != name)
         if name in self.flags:
-            imp = {(fl, nm) for (fl, nm) in imp if fl != name}
-            t = _truthiness(value) if value is not None else None
-            if t is False:
-                imp.add((name, "*"))
-            elif t is True:
-                for nm in d:
-                    imp.add((name, nm))
-                for nm in self.companions.get(id(stmt), ()):
-                    imp.add((name, nm))
-            imp = frozenset(imp)
-        return (d, imp)
+            imp = frozenset(x for x in imp if x[0] != name)
+            k = frozenset(x for x in k if x[0] != name) | {(name, _class_of(value))}
+        return (d, imp, k)
 
     def _assume(self, st, test: ast.AST, truth: bool):
-        d, imp = st
-        flag = None
-        if isinstance(test, ast.Name):
-            flag, pos = test.id, truth
-        elif isinstance(test, ast.Compare) and len(test.ops) == 1 and isinstance(test.left, ast.Name) \
-                and isinstance(test.comparators[0], ast.Constant) and test.comparators[0].value is None:
-            flag = test.left.id
-            if isinstance(test.ops[0], (ast.IsNot, ast.NotEq)):
-                pos = truth
-            elif isinstance(test.ops[0], (ast.Is, ast.Eq)):
-                pos = not truth
-            else:
-                flag = None
-        if flag is not None and flag in self.flags and pos:
-            if (flag, "*") in imp:
-                return None           # flag known falsy on every path here: this edge is infeasible
-            d = d | {nm for (fl, nm) in imp if fl == flag}
-        return (d, imp)
+        d, imp, k = st
+        ft = _flag_test(test, truth)
+        if ft is None or ft[0] not in self.flags:
+            return st
+        flag, key, operand, pol = ft
+        mine = [cl for (fl, cl) in k if fl == flag]
+        if not mine:
+            return st
+        keep: dict = {}
+        for cl in mine:
+            ev = _eval_class(cl, key, operand)
+            if ev is not None and ev != pol:
+                continue
+            keep[cl] = ("p", key, pol) if cl == _OTHER else cl
+        if not keep:
+            return None               # no origin class of the flag satisfies the test on this edge: infeasible
+        k2 = frozenset(x for x in k if x[0] != flag) | {(flag, new) for new in keep.values()}
+        imp2 = set(x for x in imp if x[0] != flag)
+        per_new: dict = {}
+        for old, new in keep.items():
+            got = {nm for (fl, cl, nm) in imp if fl == flag and cl == old}
+            per_new[new] = per_new[new] & got if new in per_new else got
+        for new, got in per_new.items():
+            for nm in got:
+                imp2.add((flag, new, nm))
+        implied = None
+        for got in per_new.values():
+            implied = got if implied is None else implied & got
+        return (d | (implied or set()), frozenset(imp2), k2)
 
     def edge(self, n: Node, state, label: str, succ: Node):
         st = state
@@ -593,11 +679,12 @@ class _DefProblem(Problem):
                 for al in a.names:
                     st = self._assign(st, (al.asname or al.name).split(".")[0], None)
             elif isinstance(a, ast.Delete):
-                d, imp = st
+                d, imp, k = st
                 for t in a.targets:
                     if isinstance(t, ast.Name):
                         d = d - {t.id}
-                st = (d, imp)
+                        imp = frozenset(x for x in imp if x[2] != t.id)
+                st = (d, imp, k)
         elif n.kind == "for" and label == "iter":
             for x in ast.walk(a.target):
                 if isinstance(x, ast.Name):
@@ -614,40 +701,172 @@ class _DefProblem(Problem):
         return st
 
 
-def _companions(fn: ast.AST, flags: set[str]) -> dict[int, set[str]]:
-    """For a statement `flag = <truthy>`: the names assigned by later top-level statements of the same block, provided no
-    break / continue lies in between (a return / raise in between leaves the function, which is harmless): on every path
-    on which the flag is truthy afterwards, those names are assigned."""
-    out: dict[int, set[str]] = {}
-    for blk in _blocks(fn):
-        for i, s in enumerate(blk):
-            if isinstance(s, ast.Assign) and len(s.targets) == 1 and isinstance(s.targets[0], ast.Name) \
-                    and s.targets[0].id in flags and _truthiness(s.value) is True:
-                names: set[str] = set()
-                for later in blk[i + 1:]:
-                    if any(isinstance(x, (ast.Break, ast.Continue)) for x in ast.walk(later)):
-                        break
-                    if isinstance(later, ast.Assign):
-                        for t in later.targets:
-                            if isinstance(t, ast.Name):
-                                names.add(t.id)
-                    elif isinstance(later, (ast.AnnAssign, ast.AugAssign)) and isinstance(later.target, ast.Name):
-                        if not (isinstance(later, ast.AnnAssign) and later.value is None):
-                            names.add(later.target.id)
-                    # the flag itself reassigned: stop
-                    if any(isinstance(x, ast.Name) and x.id == s.targets[0].id and isinstance(x.ctx, ast.Store) for x in ast.walk(later)):
-                        break
-                out[id(s)] = names
+def _tested_flags(fn: ast.AST, stored: set[str]) -> set[str]:
+    """Locals that some test of the function examines on their own (`x`, `not x`, `x <op> const`)."""
+    out: set[str] = set()
+    def tests(e: ast.AST):
+        if isinstance(e, ast.BoolOp):
+            for v in e.values:
+                yield from tests(v)
+        elif isinstance(e, ast.UnaryOp) and isinstance(e.op, ast.Not):
+            yield from tests(e.operand)
+        else:
+            yield e
+    for n in own_nodes(fn):
+        t = None
+        if isinstance(n, (ast.If, ast.While, ast.IfExp, ast.Assert)):
+            t = n.test
+        if t is None:
+            continue
+        for e in tests(t):
+            ft = _flag_test(e, True)
+            if ft is not None and ft[0] in stored:
+                out.add(ft[0])
     return out
 
 
-_ADJ = ("read only when the character after the marker is a tab (state.src[pos] == '\\t' re-tested), in which case the same test "
-        "assigned it in the preceding block")
-DEF_EXEMPT = {
-    # keyed by the function and the alpha-normalised *use* (locals replaced by where their values come from)
-    ("blockquote", "L_expr_ + state.bsCount[P1] + (1 if L_lit_ else 0)"): _ADJ,
-    ("blockquote", "L_expr_ + state.bsCount[L_expr_] + (1 if L_lit_ else 0)"): _ADJ,
-}
+_ADJ = ("read only when the character at the cursor is a tab (`ch == '\\t'` inside `isStrSpace(ch)`, ch = src[pos]); on the only "
+        "path that leaves it unassigned the character at the same, unmoved cursor was tested to be neither ' ' nor '\\t', so "
+        "the scan loop breaks before the read")
+
+
+def _is_const_eq(t: ast.AST, name: str | None = None) -> tuple[str, str] | None:
+    """`<name> == '<c>'` -> (name, c)"""
+    if isinstance(t, ast.Compare) and len(t.ops) == 1 and isinstance(t.ops[0], ast.Eq) and isinstance(t.left, ast.Name) \
+            and isinstance(t.comparators[0], ast.Constant) and isinstance(t.comparators[0].value, str):
+        if name is None or t.left.id == name:
+            return (t.left.id, t.comparators[0].value)
+    return None
+
+
+def _tab_flag_exempt(f: Func, ld: ast.Name) -> bool:
+    """The reviewed shape of the blockquote tab flag, stated structurally (robust to renaming, loop form and extraction):
+
+      d = S[p]                       (possibly in try/except IndexError -> None)
+      if d == ' ': ...X = ..   elif d == '\t': ...X = .. on every path   else: <no store to p, no X>
+      <no store to p>
+      loop:  c = S[p];  if isStrSpace(c): (if c == '\t': ... X ...) ...  else: break;   p += 1
+
+    Every read of X is inside the `c == '\t'` arm; every store of X is inside the chain on d."""
+    if f.module.rel != "rules_block/blockquote.py":
+        return False
+    parents = f.module.parents
+    X = ld.id
+    # -- the read: inside `if c == '\t'` inside `if isStrSpace(c) ... else: break` inside a loop whose body starts with c = S[p]
+    n: ast.AST = ld
+    tab_if = sp_if = loop = None
+    while n in parents and n is not f.node:
+        par = parents[n]
+        if isinstance(par, ast.If):
+            ce = _is_const_eq(par.test)
+            if tab_if is None and ce and ce[1] == "\t" and n in par.body:
+                tab_if = par
+            elif tab_if is not None and sp_if is None and isinstance(par.test, ast.Call) and U(par.test.func).split(".")[-1] == "isStrSpace" \
+                    and len(par.test.args) == 1 and isinstance(par.test.args[0], ast.Name) and n in par.body:
+                sp_if = par
+        elif isinstance(par, (ast.While, ast.For)) and sp_if is not None and loop is None and n in par.body:
+            loop = par
+        n = par
+    if tab_if is None or sp_if is None or loop is None:
+        return False
+    cname = _is_const_eq(tab_if.test)[0]          # type: ignore[index]
+    if sp_if.test.args[0].id != cname or not (sp_if.orelse and isinstance(sp_if.orelse[-1], ast.Break)):
+        return False
+    first = loop.body[0]
+    if not (isinstance(first, ast.Assign) and len(first.targets) == 1 and isinstance(first.targets[0], ast.Name)
+            and first.targets[0].id == cname and isinstance(first.value, ast.Subscript) and isinstance(first.value.slice, ast.Name)):
+        return False
+    S, pname = U(first.value.value), first.value.slice.id
+    # -- the stores of X: all inside one if/elif chain on d == ' ' / d == '\t' that precedes the loop in the same block
+    blk = None
+    for b in _blocks(f.node):
+        if loop in b:
+            blk = b
+    if blk is None:
+        return False
+    li = blk.index(loop)
+    chain = None
+    for st in reversed(blk[:li]):
+        if isinstance(st, ast.If) and _is_const_eq(st.test):
+            chain = st
+            break
+    if chain is None:
+        return False
+    ci = blk.index(chain)
+    dname = _is_const_eq(chain.test)[0]           # type: ignore[index]
+    consts: list[str] = []
+    cur: ast.AST = chain
+    else_body: list[ast.stmt] = []
+
+    def must_assign(stmts: list[ast.stmt]) -> bool:
+        for st_ in stmts:
+            if isinstance(st_, ast.Assign) and any(isinstance(t, ast.Name) and t.id == X for t in st_.targets):
+                return True
+            if isinstance(st_, ast.AnnAssign) and isinstance(st_.target, ast.Name) and st_.target.id == X and st_.value is not None:
+                return True
+            if isinstance(st_, ast.If) and st_.orelse and must_assign(st_.body) and must_assign(st_.orelse):
+                return True
+        return False
+    while True:
+        ce = _is_const_eq(cur.test, dname)        # type: ignore[attr-defined]
+        if ce is None or not must_assign(cur.body):          # type: ignore[attr-defined]
+            return False
+        consts.append(ce[1])
+        orelse = cur.orelse                        # type: ignore[attr-defined]
+        if len(orelse) == 1 and isinstance(orelse[0], ast.If):
+            cur = orelse[0]
+            continue
+        else_body = orelse
+        break
+    if set(consts) != {" ", "\t"}:
+        return False
+    # every store of X lies inside the chain; the unassigned arm (else) and the statements up to the loop do not move p
+    for x in own_nodes(f.node):
+        if isinstance(x, ast.Name) and x.id == X and isinstance(x.ctx, ast.Store):
+            q: ast.AST = x
+            inside = False
+            while q in parents:
+                q = parents[q]
+                if q is chain:
+                    inside = True
+                    break
+                if q is loop:
+                    break
+            if not inside and not _in_other_chain(f, x, loop):
+                return False
+    for st in list(else_body) + blk[ci + 1:li]:
+        for x in ast.walk(st):
+            if isinstance(x, ast.Name) and x.id in (pname, dname) and isinstance(x.ctx, ast.Store):
+                return False
+    # d = S[p] just before the chain (directly or in a try whose handler sets d = None)
+    ok_d = False
+    for st in reversed(blk[:ci]):
+        for x in ast.walk(st):
+            if isinstance(x, (ast.Assign, ast.AnnAssign)):
+                tg = x.targets[0] if isinstance(x, ast.Assign) else x.target
+                if isinstance(tg, ast.Name) and tg.id == dname and x.value is not None:
+                    if isinstance(x.value, ast.Subscript) and U(x.value.value) == S and isinstance(x.value.slice, ast.Name) \
+                            and x.value.slice.id == pname:
+                        ok_d = True
+                    elif not (isinstance(x.value, ast.Constant) and x.value.value is None):
+                        return False
+        if ok_d:
+            break
+        if any(isinstance(x, ast.Name) and x.id == pname and isinstance(x.ctx, ast.Store) for x in ast.walk(st)):
+            return False
+    return ok_d
+
+
+def _in_other_chain(f: Func, x: ast.AST, loop: ast.AST) -> bool:
+    """A store of the flag that belongs to another copy of the same construct (the function has one copy for the first line
+    and one inside the continuation loop): it is judged when the reads of that copy are examined."""
+    parents = f.module.parents
+    q = x
+    while q in parents:
+        q = parents[q]
+        if isinstance(q, ast.If) and _is_const_eq(q.test) and _is_const_eq(q.test)[1] in (" ", "\t"):      # type: ignore[index]
+            return True
+    return False
 
 
 def rule_def(c: Ctx) -> RuleResult:
@@ -693,23 +912,9 @@ def rule_def(c: Ctx) -> RuleResult:
         if not loads:
             continue
         r.functions += 1
-        flags = set()
-        for name in stored:
-            vals = []
-            okf = True
-            for n in own_nodes(node):
-                if isinstance(n, ast.Name) and n.id == name and isinstance(n.ctx, ast.Store):
-                    par = f.module.parents.get(n)
-                    if isinstance(par, ast.Assign) and n in par.targets:
-                        vals.append(par.value)
-                    elif isinstance(par, ast.AnnAssign) and par.value is not None:
-                        vals.append(par.value)
-                    else:
-                        okf = False
-            if okf and vals and all(_truthiness(v) is not None for v in vals) and any(_truthiness(v) is False for v in vals):
-                flags.add(name)
+        flags = _tested_flags(node, stored)
         cfg = c.cfg(f)
-        res = solve(cfg, _DefProblem(cfg, params, flags, _companions(node, flags)), widen_after=10**9)
+        res = solve(cfg, _DefProblem(cfg, params, flags), widen_after=10**9)
         seen_keys: set[str] = set()
         for ld in loads:
             owners = cfg.owner(ld)
@@ -718,7 +923,7 @@ def rule_def(c: Ctx) -> RuleResult:
                 st = res.get(n.id)
                 if st is None:
                     continue
-                d, imp = st
+                d = st[0]
                 if ld.id in d:
                     continue
                 # defined earlier inside the same node (walrus in the same test, or `x = ...; use x` cannot be one node)
@@ -732,12 +937,11 @@ def rule_def(c: Ctx) -> RuleResult:
                     r.add(key, c.where(f, ld), f.short, ld.id, "discharged",
                           "trivial: parameter" if ld.id in params else "definitely assigned on every path to each of its reads")
                 continue
-            ek = (f.short, _def_use_key(f, ld))
-            if ek in DEF_EXEMPT:
+            if _tab_flag_exempt(f, ld):
                 k2 = key + "|exempt"
                 if k2 not in seen_keys:
                     seen_keys.add(k2)
-                    r.add(key, c.where(f, ld), f.short, ld.id, "exempt", DEF_EXEMPT[ek])
+                    r.add(key, c.where(f, ld), f.short, ld.id, "exempt", _ADJ)
                 continue
             r.add(key + f"|{alpha(f, _stmt_of(f, ld))[:60]}", c.where(f, ld), f.short, ld.id, "violation",
                   f"local `{ld.id}` may be read before assignment on some path to this use (UnboundLocalError)")
